@@ -314,6 +314,33 @@ async fn recover_under_read_faults(out: &mut Out, real: &Real, rng: &mut Rng) {
                         json!({"layout": real.text, "recovery_call": idx, "fault": format!("{:?}", f), "object": key, "clean": show_upds(&clean_fold), "got": show_upds(&got)}));
                 }
             }
+            // the SECOND implementation of the same logic — recover_with_progress, the one
+            // StreamingIntegration::recover (production start-up) calls — under the same fault: it issues the
+            // same gets in the same order, so the fault hits the same object; it must fail or return the
+            // clean state, and it must agree with recover() on Ok / Err
+            let st2 = FaultStore::from_image(&img);
+            st2.inner.lock().unwrap().faults.insert(idx, f);
+            let rp = RecoveryManager::new(st2.clone(), PREFIX, real.rid).recover_with_progress(|_| {}).await;
+            let rec2 = st2.inner.lock().unwrap().read_faults.first().cloned();
+            let outcome2 = rec2.as_ref().map(|r| r.outcome).unwrap_or("error");
+            out.count(&format!("recover-with-progress-read-fault:{}:{}", f.name(), if rp.is_err() { "rejected" } else { "accepted" }));
+            if let Ok(rs) = &rp {
+                let got = sorted_map(&fold_recovered(rs));
+                if got != clean_fold {
+                    let sig = if outcome2 == "accepted-different" {
+                        format!("C11:read-corruption-accepted:{}:{}", object, f.name())
+                    } else {
+                        format!("C11:recover-with-progress:read-fault:silently-different-state:{}", object)
+                    };
+                    out.violation(&sig, "recover_with_progress() (the production start-up path) under a read fault returns Ok with a state different from a clean recovery (it must fail or return the same state)",
+                        json!({"layout": real.text, "recovery_call": idx, "fault": format!("{:?}", f), "object": key, "clean": show_upds(&clean_fold), "got": show_upds(&got)}));
+                }
+            }
+            if r.is_err() != rp.is_err() && rec.as_ref().map(|x| x.key.clone()) == rec2.as_ref().map(|x| x.key.clone()) {
+                out.violation(&format!("C11:recover-with-progress:read-fault:differs-from-recover:{}", object),
+                    "recover() and recover_with_progress() disagree on Ok / Err under the same read fault on the same object",
+                    json!({"layout": real.text, "recovery_call": idx, "fault": format!("{:?}", f), "object": key, "recover": r.is_ok(), "recover_with_progress": rp.is_ok()}));
+            }
         }
     }
 }
